@@ -10,6 +10,7 @@ fn any_rect() -> Rect<u32> {
 // @ob props=C08,C11 tier=quick kind=P cfg=core-std timeout=600
 // @fn Rect::intersect ; Rect::contains ; Rect::bounds
 // @clause the intersection of two rectangles (any mix of bounded and unbounded sides, all u32 corners) contains a point exactly when both operands contain it
+#[cfg(not(verif_skip_rect_intersect_is_conjunction))]
 #[kani::proof]
 fn rect_intersect_is_conjunction() {
     let (a, b) = (any_rect(), any_rect());
@@ -23,6 +24,7 @@ fn rect_intersect_is_conjunction() {
 // @ob props=C08,C11 tier=quick kind=P cfg=core-std timeout=600
 // @fn Rect::contains ; Rect::is_empty ; Rect::width ; Rect::height
 // @clause contains(x,y) is left <= x < right and top <= y < bottom with absent sides unbounded; a rectangle that is_empty contains no point; width/height are the clamped extents of bounded sides
+#[cfg(not(verif_skip_rect_contains_spec))]
 #[kani::proof]
 fn rect_contains_spec() {
     let r = any_rect();
